@@ -620,12 +620,20 @@ pub fn generate_in_process(root: &std::path::Path, bp: &BuiltProject, pc: &ProjC
         let decl_abs = root.join(&rel_out);
         let mut o = OperationTypePrinterOptions::from_config(&cfg);
         o.schema_source = to_js(relative_path(&decl_abs, &schema_out_abs));
-        let mapper: Vec<usize> = (0..n_all).map(|k| if k < n_schema { k } else if k == *idx { n_schema } else { usize::MAX }).collect();
+        // sources of an operation declaration: schema files, then (in input order) the file itself and
+        // the files whose fragments it imports
+        let _ = path;
+        let mut from: Vec<usize> = opdoc.definitions.iter().map(|d| nitrogql_ast::base::HasPos::position(d).file).chain(std::iter::once(*idx)).filter(|k| *k >= n_schema).collect();
+        from.sort_unstable();
+        from.dedup();
+        let mapper: Vec<usize> = (0..n_all).map(|k| if k < n_schema { k } else if let Ok(nth) = from.binary_search(&k) { n_schema + nth } else { usize::MAX }).collect();
         let mut w = SourceWriter::new();
         w.set_file_index_mapper(mapper);
         print_types_for_operation_document(o, &schema, opdoc, &mut w);
         let mut sources = schema_sources.clone();
-        sources.push(path.as_path());
+        for k in &from {
+            sources.push(op_inputs[*k - n_schema].0.as_path());
+        }
         emit(&rel_out, w.into_buffers(), sources)?;
     }
     out.insert("generated/graphql.ts".into(), server_module);
